@@ -329,6 +329,10 @@ def run_seeds(programs, seeds):
 def worker_main(batch, outp):
     from vf import repo
     repo.bootstrap()
+    # every worker also gets another memory layout: addresses must not show
+    # either (values that hash by identity)
+    shift = int(os.environ.get("PYTHONHASHSEED", "0") or 0)
+    junk = [bytearray(997) for _ in range(shift % 1789)]    # noqa: F841
     with open(batch, encoding="utf-8") as f:
         programs = json.load(f)
     res = []
@@ -449,6 +453,61 @@ def part_paths(part, n, exhaustive_paths, lib=None):
                          "strings": progs[i]["strings"]})
 
 
+# sets and maps whose elements / keys are functions: unnamed ones, and named
+# ones that share a name (made by one maker function)
+FUNC_PRELUDE = (
+    "def mk(n) do def g() n; g end; "
+    "def F = << {fs} >>; def FM = <<< {fm} >>>; "
+    "def G = << mk(1), mk(2), mk(3), mk(4) >>; ")
+FUNC_PATHS = [
+    ("fn-set-comprehension", "[f() for f in F]"),
+    ("fn-set-loop", "def r = []; for f in F do append(r, f()) end; r"),
+    ("fn-set-list", "[f() for f in list(F)]"),
+    ("fn-set-spread", "[f() for f in [...F]]"),
+    ("fn-set-sorted", "[f() for f in sorted(list(F))]"),
+    ("fn-set-call-spread", "(fn(a...) [f() for f in a...])(...F)"),
+    ("fn-map-keys", "[k() for k in keys FM]"),
+    ("fn-map-values", "[v for v in values FM]"),
+    ("fn-map-string", "string(FM)"),
+    ("fn-map-entries", "[[e[0](), e[1]] for e in entries FM]"),
+    ("fn-named-set", "[f() for f in G]"),
+    ("fn-named-set-loop", "def r = []; for f in G do append(r, f()) end; r"),
+    ("fn-set-destructure", "def [a, b] = F; [a(), b()]"),
+    ("fn-set-union", "[f() for f in F + G]"),
+]
+
+
+def part_functions(part):
+    """Functions hash by identity: their order in a set must still not
+    depend on addresses.  Every path x 6 sizes x two element orders, across
+    processes with different hash seeds and memory layouts."""
+    progs = []
+    labels = []
+    for n in (2, 3, 4, 5, 6, 8):
+        for rev in (False, True):
+            ks = list(range(1, n + 1))
+            if rev:
+                ks.reverse()
+            fs = ", ".join(f"fn() {k}" for k in ks)
+            fm = ", ".join(f"(fn() {k}) => 'v{k}'" for k in ks)
+            pre = FUNC_PRELUDE.format(fs=fs, fm=fm)
+            for label, path in FUNC_PATHS:
+                progs.append({"src": pre + path, "strings": []})
+                labels.append(label)
+    seeds = seeds_for(part.tier, part.seed)
+    results = run_seeds(progs, seeds)
+    local = [outcome(p["src"]) for p in progs]
+    part.count(len(progs) * (len(seeds) + 1))
+    for p, lab in zip(progs, labels):
+        part.nontriv(p["src"])
+    part.cls("functions-as-elements", progs[0]["src"])
+    part.note("programs", len(progs))
+    part.note("hash_seeds", seeds)
+    for i, f in compare_across(progs, labels, results, local):
+        part.collect(f, {"kind": "seeds", "src": progs[i]["src"],
+                         "label": labels[i], "strings": []})
+
+
 def parts(tier, seed):
     libs = [(f"lib-{i}", part_paths,
              {"n": 0, "exhaustive_paths": True, "lib": (i, 4)})
@@ -456,9 +515,10 @@ def parts(tier, seed):
     if tier == "quick":
         return [(f"paths-{i}", part_paths,
                  {"n": 1500, "exhaustive_paths": i < 2})
-                for i in range(4)] + libs
+                for i in range(4)] + libs + [("functions", part_functions, {})]
     return [(f"paths-{i}", part_paths,
-             {"n": 5000, "exhaustive_paths": i < 2}) for i in range(4)] + libs
+             {"n": 5000, "exhaustive_paths": i < 2}) for i in range(4)] + libs \
+        + [("functions", part_functions, {})]
 
 
 if __name__ == "__main__":
